@@ -326,6 +326,17 @@ func c17Enum(c *core.Ctx, p c17Params) {
 			}
 		}
 	}
+	if p.Shard == 0 {
+		// every byte value in every position of a short name, so that the limits of the
+		// allowed character range (33 and 126) and their neighbours are hit
+		for b := 0; b < 256; b++ {
+			ch := string([]byte{byte(b)})
+			for _, t := range []string{ch, "a" + ch, ch + "a", "a." + ch + "b", "a" + ch + ".b", "a.b?" + ch, "ab." + ch} {
+				c17Validity(c, t)
+			}
+		}
+		c.Obs("byte_sweep_strings", 256*7)
+	}
 	var nontrivial int64
 	for _, pat := range pats {
 		wild := ref.HasWildcard(pat)
@@ -494,6 +505,24 @@ func c17Transformer(c *core.Ctx, r *rand.Rand) {
 		c.Violation("C17/transformer-no-route", fmt.Sprintf("rid %q produced by IDToRID from id %q and pattern %q is not routed to that pattern", rid, id, pattern),
 			map[string]interface{}{"id": id, "pattern": pattern, "rid": rid})
 		return
+	}
+	// routing agrees with matching on names around the produced rid, in particular at the
+	// boundary between the Mux path and the rest of the name
+	for _, nm := range []string{"svc" + string("x$-_~"[r.Intn(5)]) + rid[4:], "svc" + rid[4:], "sv." + rid[4:], "svcc." + rid[4:], rid + ".x", "svc", "svc."} {
+		if !ref.ValidName(nm) {
+			continue
+		}
+		_, want := ref.Match(pattern, nm)
+		var got *res.Match
+		if pn := try(func() { got = m.GetHandler(nm) }); pn != nil {
+			continue
+		}
+		c.Obs("routing_vs_matching_names", 1)
+		if (got != nil) != want {
+			c.Violation("C17/routing-vs-matching", fmt.Sprintf("a Mux with path svc and the single pattern %q routes %q: %v, but Pattern.Matches says %v", pattern, nm, got != nil, want),
+				map[string]interface{}{"pattern": pattern, "name": nm})
+			break
+		}
 	}
 	back := tr.RIDToID(rid, mh.Params)
 	if back != id {
